@@ -270,6 +270,14 @@ def corpus():
     B('inv-put', 'PUT', rp + '/inventories/{resource_class}', [P(4), 'VCPU'],
       body=dict(INV_BODY, resource_provider_generation=1))
     B('inv-delete', 'DELETE', rp + '/inventories/{resource_class}', [P(4), 'VCPU'])
+    # the same writes below 1.26 (where reserved == total is still refused: other error classes)
+    B('inv-put-all@1.25', 'PUT', rp + '/inventories', [P(4)],
+      body={'resource_provider_generation': 1,
+            'inventories': {'VCPU': dict(INV_BODY), 'CUSTOM_GOLD': {'total': 2}}}, mv='1.25')
+    B('inv-put@1.0', 'PUT', rp + '/inventories/{resource_class}', [P(4), 'VCPU'],
+      body=dict(INV_BODY, resource_provider_generation=1), mv='1.0')
+    B('inv-post@1.25', 'POST', rp + '/inventories', [P(4)],
+      body=dict(INV_BODY, resource_class='CUSTOM_GOLD'), mv='1.25')
     # -- usages, aggregates, provider allocations
     B('rp-usages', 'GET', rp + '/usages', [P(1)])
     B('agg-get', 'GET', rp + '/aggregates', [P(1)])
@@ -494,7 +502,8 @@ def tweaks(v):
     if isinstance(v, int):
         return [('as-str', 'int-as-str', str(v)), ('neg', 'int:neg', -v),
                 ('float', 'float:integral', float(v)), ('plus.5', 'float', v + 0.5),
-                ('plus1e6', 'int:large-valid', v + 10 ** 6)]
+                ('plus1e6', 'int:large-valid', v + 10 ** 6)] + (
+                    [('zero', 'int:zero', 0)] if v else [])
     if isinstance(v, float):
         return [('as-str', 'float-as-str', str(v)), ('neg', 'float:neg', -v),
                 ('tiny', 'float:tiny', 1e-9), ('huge', 'float:huge', 1e39)]
@@ -1535,7 +1544,7 @@ def run(ctx):
     corp = get_corpus()
     base_img = make_base_image()
     ctx.level = 'exploration'
-    budget = ctx.budget or (200 if ctx.quick else 1500)
+    budget = ctx.budget or (320 if ctx.quick else 1800)
 
     evaluations = [0]
     per_depth = collections.Counter()
@@ -1677,9 +1686,73 @@ def run(ctx):
         'SQLite stands in for the DBMS: integer-range and text-encoding failures are those of '
         'SQLite / pysqlite',
     ]
+    if not ctx.new_violations():
+        conc_part(ctx)
+
+
+def conc_scenarios():
+    """Two identical (or colliding) creation requests in flight together: whichever loses the
+    race for the row is answered like a request that finds the row in place -- never with 500."""
+    from vp import reqs
+    from vp.http import R
+    from vp.names import A, K, P
+    four = {'total': 4}
+    base = [reqs.mk_rp(1), reqs.mk_rp(2), reqs.put_invs(P(1), 0, {'VCPU': four})]
+    pairs = [
+        ('PUT /resource_classes/CUSTOM_N', reqs.put_class('CUSTOM_N'), reqs.put_class('CUSTOM_N')),
+        ('POST /resource_classes CUSTOM_N', reqs.post_class('CUSTOM_N'), reqs.post_class('CUSTOM_N')),
+        ('PUT vs POST resource class', reqs.put_class('CUSTOM_N'), reqs.post_class('CUSTOM_N')),
+        ('PUT /traits/CUSTOM_N', reqs.put_trait('CUSTOM_N'), reqs.put_trait('CUSTOM_N')),
+        ('POST provider, same uuid and name', reqs.mk_rp(3), reqs.mk_rp(3)),
+        ('POST provider, same name only', reqs.mk_rp(3, name='same'), reqs.mk_rp(4, name='same')),
+        ('POST child provider, same uuid', reqs.mk_rp(3, parent=P(1)), reqs.mk_rp(3, parent=P(2))),
+        ('PUT aggregates, same new aggregate', reqs.put_aggs(P(1), 1, [A(1)]),
+         reqs.put_aggs(P(2), 0, [A(1)])),
+        ('PUT provider traits, same new custom trait absent', reqs.put_traits(P(1), 1, ['CUSTOM_N']),
+         reqs.put_trait('CUSTOM_N')),
+        ('POST inventory, same class', reqs.post_inv(P(2), 'VCPU', four),
+         reqs.post_inv(P(2), 'VCPU', four)),
+        ('PUT allocations, same new consumer, new project and user',
+         reqs.put_alloc(K(1), {P(1): {'VCPU': 1}}, project='np', user='nu', ctype='NEWTYPE'),
+         reqs.put_alloc(K(1), {P(1): {'VCPU': 1}}, project='np', user='nu', ctype='NEWTYPE')),
+        ('PUT allocations, two consumers, same new project, user and type',
+         reqs.put_alloc(K(1), {P(1): {'VCPU': 1}}, project='np', user='nu', ctype='NEWTYPE'),
+         reqs.put_alloc(K(2), {P(1): {'VCPU': 1}}, project='np', user='nu', ctype='NEWTYPE')),
+        ('rename to the same name', R('PUT', '/resource_providers/' + P(1), {'name': 'same'}),
+         R('PUT', '/resource_providers/' + P(2), {'name': 'same'})),
+        ('PUT class rename (1.6) vs create of the target name',
+         reqs.put_class('CUSTOM_OLD', mv='1.6', body={'name': 'CUSTOM_N'}),
+         reqs.put_class('CUSTOM_N')),
+    ]
+    out = []
+    for name, a, b in pairs:
+        a, b = dict(a), dict(b)
+        a['tag'], b['tag'] = name + ' [1]', name + ' [2]'
+        setup = base + ([reqs.post_class('CUSTOM_OLD')] if 'rename (1.6)' in name else [])
+        out.append({'name': name, 'setup': setup, 'requests': [a, b], 'bound': None,
+                    'max_exec': 6000})
+    return out
+
+
+def conc_part(ctx):
+    from vp import explore_conc
+    sc = conc_scenarios()
+    tot = explore_conc.run_scenarios(ctx, 'C15', sc)
+    ctx.coverage['concurrent_part'] = {
+        'scenarios': tot['scenarios'], 'scenarios_planned': len(sc), 'states': tot['states'],
+        'transitions': tot['transitions'], 'schedules_executed': tot['executions'],
+        'outcome_vectors': tot['outcome_vectors'],
+        'rule': 'ALL interleavings (top-level-transaction granularity) of %d pairs of colliding '
+                'creation requests (same class, trait, provider uuid / name, aggregate, consumer, '
+                'project / user / consumer type); judged: no request is answered 5xx, the loser '
+                'gets an answer it also gets in a serial order, the stored rows equal a serial '
+                'order' % len(sc)}
 
 
 def replay(ctx, data):
+    if data.get('engine') == 'conc':
+        from vp import explore_conc
+        return explore_conc.replay(ctx, data)
     from vp.boot import Harness
     from vp.snapshot import Dump
     h = Harness()
